@@ -143,6 +143,12 @@ def run_s2c(prop, tier, seed, opts):
             res = V.run_tlc(scratch, st["module"], st["cfg"][tier], workers=st.get("workers", 8),
                             timeout=st.get("timeout", {}).get(tier, 1500), files=files, sub="tlc-" + st["name"], extra=extra)
             V.tlc_ok(res, st["module"] + "/" + st["cfg"][tier])
+            if st.get("modelonly"):
+                # a model whose ASSUME / invariants are the check; nothing to replay
+                total_states += max(1, res["states"])
+                total_distinct += max(1, res["distinct"])
+                stage_info.append(dict(stage=st["name"], module=st["module"], cfg=st["cfg"][tier], kind="model only", tlc_wall_s=round(res["wall"], 1)))
+                continue
             if res["emitted"] == 0:
                 raise V.Broken("stage %s emitted no cases" % st["name"])
             if st.get("transform"):
